@@ -2,6 +2,7 @@ package nfs
 
 import (
 	"crypto/rand"
+	"sync"
 
 	"github.com/goose-lang/primitive/disk"
 
@@ -23,6 +24,9 @@ type Nfs struct {
 	shrinkst *shrinker.ShrinkerSt
 	// support unstable writes
 	Unstable bool
+	// serializes renames between two directories, so that the shape of the
+	// directory tree is stable while one of them checks for a cycle
+	renameMu *sync.Mutex
 	// write verifier: differs between server instances, so that clients
 	// can detect that unstable writes may have been lost
 	verf nfstypes.Writeverf3
@@ -63,6 +67,7 @@ func MakeNfs(d disk.Disk) *Nfs {
 		shrinkst: shrinker.MkShrinkerSt(st),
 		Unstable: true,
 		verf:     mkWriteVerf(),
+		renameMu: new(sync.Mutex),
 	}
 	if format {
 		nfs.makeRootDir()
